@@ -66,11 +66,12 @@ ASSUMPTIONS = [
     "soft pseudo-label tables have a unique row maximum (gap > 1e-4) and moderate values (no probability below 1e-4), tau >= 0.5; top-k ties at the k-th value count as admissible",
     "SemiWrapper's count is floor(percent * n) evaluated in float64 or exactly; both are accepted",
     "the caller does not modify returned bulk lists; bulk results are compared numerically (list / ndarray / tensor all accepted)",
-    "thresholds other than 0 / 1 keep a distance of 1e-5 from every row confidence (row-wise vs table-wise softmax may differ in the last digit)",
+    "thresholds other than 0 / 1 keep a distance of 1e-5 from every row confidence (row-wise vs table-wise softmax may differ in the last digit), except exact-tie tables: rows of identical logits (class count 2 / 4 / 8) or two identical logits and -inf otherwise, whose confidence is exactly 1/count resp. 0.5 on both paths, with the threshold at or above that value; only bulk == per-sample is judged there, not which side of the tie is right",
+    "reconfiguration through KDRandomClassWrapper's public setters is driven below pass-through wrappers and encoders only (wrappers that compute a table at construction are a function of their constructor arguments); encoders are stacked on KDRandomClassWrapper only while its labels are python ints",
     "in-place edits of wrapped labels are observed through leaves whose bulk accessor hands out their own list / ndarray / tensor (as KDRandomClassWrapper.getall_class does); leaves returning copies cannot show them",
     "encoded vectors: tolerance 1e-5 on the sum, 1e-7 on sign and on the arg-max comparison (float32 arithmetic)",
 ]
-MONITORS = ["bulk_vs_item_checked", "range_checked", "other_items_checked", "wrapped_labels_checked", "history_queries_checked",
+MONITORS = ["reconfigured_layers_checked", "exact_tie_tables", "bulk_vs_item_checked", "range_checked", "other_items_checked", "wrapped_labels_checked", "history_queries_checked",
             "seed_differential_checked", "encoding_checked", "aliasing_leaf_cases", "topk_bulk_refusals"]
 
 KINDS = list(_MODS)
@@ -188,6 +189,12 @@ def _gen_layer(rng, kind, n, dim, unl):
             L["thr"] = rng.choice([0.0, 1.0, "q", "q", "q", round(rng.random(), 3)])
             L["q"] = rng.random()
             unl_out = True
+            if rng.random() < 0.5:
+                # rows whose confidence equals the threshold exactly, in float arithmetic on a row as well as on the table:
+                # all logits identical (class count a power of two -> 1 / count) or two identical logits and -inf (-> 0.5)
+                L["tie"] = {"kind": rng.choice(["uniform", "pair"]) if dim in (2, 4, 8) else "pair", "c": rng.choice([0.0, 2.5, -1.0, 0.37]),
+                            "share": rng.choice([0.1, 0.3, 1.0])}
+                L["thr"] = rng.choice(["tie", "tie", "tie", 0.9, 1.0])  # never below the tie: which tied class wins is not judged
         if form == "topk":
             L.update(topk=rng.choice([1, dim, rng.randint(1, dim)]), tau=rng.choice([None, "inf", 0.5, 1.0, 2.0, 5.0]),
                      seed=rng.choice([0, 1, rng.randrange(10 ** 6)]))
@@ -253,10 +260,45 @@ def gen_cases(run):
                 layers.append(l2)
         if any(L["kind"] not in TENSOR_ITEM_OK for L in layers):
             leaf["item"] = "int"
+        if i % 12 == 7 or (i >= 6 * len(KINDS) and rng.random() < 0.06):
+            leaf, layers, reconf = _gen_reconfig(rng)
+        else:
+            reconf = None
         spec = {"leaf": leaf, "layers": layers, "g": [rng.randrange(2 ** 31), rng.randrange(2 ** 31)], "ops_seed": rng.randrange(10 ** 6)}
-        if n < 2:
+        if reconf is not None:
+            spec["reconfig"] = reconf
+        if leaf["n"] < 2:
             spec["_trivial"] = True
         yield spec
+
+
+def _gen_reconfig(rng):
+    """KDRandomClassWrapper, optionally a pass-through wrapper, then an encoder; afterwards the inner wrapper is
+    reconfigured through its public setters (1..3 times) and the stack is judged again"""
+    leaf = _gen_leaf(rng, "randomclass")
+    leaf["item"] = "int"
+    n = leaf["n"]
+    enc = rng.choice(["onehot", "onehot", "smoothing"])
+    lo = 2  # one-hot over a binary class shape is not driven; keep both encoders on the multi-class side
+    nc = rng.randint(lo, 10)
+    mode = rng.choice(["random", "randperm"])
+    layers = [{"kind": "randomclass", "mode": mode, "num_classes": nc, "seed": _seed_choice(rng)}]
+    mids = (["semi"] if enc == "smoothing" else []) + (["allgather"] if n >= 1 else [])  # one-hot is not fed -1
+    if mids and rng.random() < 0.35:
+        layers.append(_gen_layer(rng, rng.choice(mids), n, nc, False)[0])
+    layers.append(_gen_layer(rng, enc, n, nc, False)[0])
+    steps = []
+    for _ in range(rng.choice([1, 1, 2, 3])):
+        attr = rng.choice(["num_classes", "num_classes", "num_classes", "seed", "mode"])
+        if attr == "num_classes":
+            val = rng.choice([v for v in (lo, nc - 1, nc + 1, 2 * nc, rng.randint(lo, 12), rng.randint(lo, 12)) if v >= lo and v != nc])
+            nc = val
+        elif attr == "seed":
+            val = rng.randrange(10 ** 6)
+        else:
+            val = mode = "randperm" if mode == "random" else "random"
+        steps.append([attr, val])
+    return leaf, layers, steps
 
 
 # ================================================================================================ construction
@@ -308,15 +350,39 @@ def _pseudo_table(L, n, dim):
         top2 = t.topk(2, dim=1)
         close = (top2.values[:, 0] - top2.values[:, 1]) < 1e-3
         t[torch.arange(n)[close], top2.indices[close, 0]] += 0.01
+    if L.get("tie") and n > 0:
+        tie, p = L["tie"], _tie_prob(L, dim)
+        for _ in range(8):  # every other row keeps a clear distance from the tie value
+            conf = t.softmax(dim=1).max(dim=1)
+            near = (conf.values - p).abs() < 1e-3
+            if not near.any():
+                break
+            t[torch.arange(n)[near], conf.indices[near]] += 1.0
+        near = (t.softmax(dim=1).max(dim=1).values - p).abs() < 1e-3
+        pick = (torch.rand(n, generator=g) < tie["share"]) | near
+        pick[L["tseed"] % n] = True
+        cols = torch.rand(n, dim, generator=g).argsort(dim=1)[:, :2]
+        for i in torch.arange(n)[pick].tolist():
+            if tie["kind"] == "uniform":
+                t[i] = tie["c"]
+            else:
+                t[i] = float("-inf")
+                t[i, cols[i]] = tie["c"]
     if L["form"] == "topk" and L["tau"] is None:
         t = t.softmax(dim=1)
     return t
+
+
+def _tie_prob(L, dim):
+    return 1.0 / dim if L["tie"]["kind"] == "uniform" else 0.5
 
 
 def _threshold(L, table):
     """threshold of a 'thr' table: the extremes 0 / 1 as given; anything else is kept at least 1e-5 away from every
     row confidence, so that a row-wise and a table-wise softmax (last-digit differences) cannot disagree about it"""
     thr = L["thr"]
+    if thr == "tie":
+        return _tie_prob(L, table.size(1))
     if thr in (0.0, 1.0) or len(table) == 0:
         return 0.5 if thr == "q" else float(thr)
     mx = sorted(table.softmax(dim=1).max(dim=1).values.tolist())
@@ -367,6 +433,8 @@ def _ctor(L, below, n, dim_in, tmp, aux):
     if k == "pseudo":
         table = _pseudo_table(L, n, dim_in)
         aux["table"] = table
+        if L.get("tie") and n > 0 and L["thr"] == "tie":
+            aux["exact_tie"] = True
         kw = {}
         if L["form"] == "thr":
             kw["threshold"] = aux["thr"] = _threshold(L, table)
@@ -570,6 +638,8 @@ def _classify_bulk(L, items, bulk, below_labels, n):
             return "allgather:bulk-double-map"
     if k == "pseudo" and L["form"] == "thr" and len(bulk) == n and all(b == it or it == -1 for b, it in zip(bulk, items)):
         return "pseudo:bulk-ignores-threshold"
+    if k == "pseudo" and L["form"] == "thr" and len(bulk) == n and all(b == it or b == -1 for b, it in zip(bulk, items)):
+        return "pseudo:bulk-threshold-stricter-than-per-sample"
     if bulk == below_labels:
         return f"{k}:bulk-falls-through-to-wrapped-labels"
     return f"{k}:bulk-vs-item"
@@ -710,6 +780,8 @@ def _semantics(run, L, what, w, items, bulk, below_labels, dim_in, dim, n, aux):
     elif k == "pseudo":
         table = aux["table"]
         form = L["form"]
+        if aux.get("exact_tie"):
+            run.count("exact_tie_tables")
         if form == "hard":
             if items != table.tolist():
                 V("pseudo:per-sample", f"{what}: per-sample labels {_s(items)}, given pseudo labels {_s(table.tolist())}")
@@ -755,6 +827,7 @@ def _stack(run, spec, which, full, tmp):
             run.count("evidence_global_rng_consumed")  # evidence only: the property speaks about dependence, not consumption
         if full and L["kind"] == "randomclass" and "setter" in L:
             _setter(run, L, below, n, dim_in, tmp)
+        o["w"] = w
         obs.append(o)
         if li + 1 < len(spec["layers"]):
             if full:
@@ -765,7 +838,31 @@ def _stack(run, spec, which, full, tmp):
     if full and leaf.alias_getall:
         run.count("aliasing_leaf_cases")
     run.count("evidence_leaf_loads", len(leaf.log))
+    if full and spec.get("reconfig"):
+        _reconfigure(run, spec, obs, leaf)
     return obs
+
+
+def _reconfigure(run, spec, obs, leaf):
+    """set the inner KDRandomClassWrapper's public properties while other wrappers are stacked on it; after every
+    step each layer has to satisfy the same clauses again (range against the class shape announced *now*, encoding
+    length, bulk vs per-sample, untouched data), the inner wrapper against its new arguments"""
+    leaf_spec = spec["leaf"]
+    n = leaf_spec["n"]
+    layers = [dict(L) for L in spec["layers"]]
+    inner = obs[0]["w"]
+    for si, (attr, val) in enumerate(spec["reconfig"]):
+        _real(run, lambda: setattr(inner, attr, val), "randomclass:setter-crash", f"{_describe(layers[0])}.{attr} = {val!r} below {[L['kind'] for L in layers[1:]]}")
+        layers[0][attr] = val
+        below, below_labels, dim_in = leaf, list(leaf_spec["classes"]), leaf_spec["dim"]
+        for li, L in enumerate(layers):
+            w = obs[li]["w"]
+            if L["kind"] in ENCODERS and any(type(v) is not int for v in [below.getitem_class(i) for i in range(n)]):
+                run.count("reconfig_skipped_label_type")  # the encoders document python-int / 0-d tensor labels only
+                return
+            o = _observe(run, L, below, w, below_labels, dim_in, leaf, leaf_spec, spec["ops_seed"] + 101 * (si + 1) + li, True, {})
+            run.count("reconfigured_layers_checked")
+            below, below_labels, dim_in = w, o["items"], o["dim"]
 
 
 def _setter(run, L, below, n, dim_in, tmp):
